@@ -146,7 +146,7 @@ def main():
     chk.obligation('modelrun_Engine builds', 'build', ok, out[-500:])
     if ok:
         if chk.quick:
-            vlib.run_sharded(chk, shard, 14, extra=(6, 6))
+            vlib.run_sharded(chk, shard, 14, extra=(16, 8))
         else:
             vlib.run_sharded(chk, shard, 28, extra=(40, 10))
         chk.obligation('E1 x semantics: results and action-call sequences, implementation vs model', 'correspondence',
